@@ -70,6 +70,10 @@ add("C07","model_checking","stateless exploration of add-word/edit/restart histo
     "All applicable histories up to depth 3 (4 thorough) over {open, change, HarperAddToUserDict, HarperAddToFileDict with 5 Unicode words on two documents, server restart} on the real Backend: after every step the real load_dict of each dictionary file equals the set of words added, and the diagnostics of every open document equal a fresh reference lint (file words only in their file). For every history that ends in an add command the save is executed one I/O completion at a time; the on-disk image after every completion, and every byte cut of every in-place append (same inode), is recovered with the real loader: no acknowledged word lost, nothing but (a prefix of) the word in flight gained. harper_wasm::Linter: all import_words sequences up to length 2 (3) over 8 words incl. case variants.",
     "crash = process death between/inside write calls of the blocking pool; power-loss reordering is outside the bound; word alphabet", "§4.C07", "E3")
 
+add("C10","exploration","exhaustive enumeration of library inputs / API calls / LSP sessions, each executed under a syscall monitor (strace), plus breadth-first reachability over the resolved dependency graph",
+    "Three workloads run under strace -f: ~10 000 library cases (harvested seeds through all 36 front-end compositions, JS-facing API calls), every applicable in-process server session up to depth 2 (3 thorough) followed by HarperRecordLint and shutdown with a configured statsPath plus four documents whose URIs carry encoded path separators and parent-directory segments, and the shipped harper-ls binary over stdio (9 sessions x statsPath on/off) and TCP. The syscall log must contain no network socket/connect/bind/send other than the loopback listener, no resolver-configuration read, and no file creation/rename/unlink/mkdir outside the configured user dictionary, file-dictionary directory and statistics file (paths normalised). The cargo metadata graph from all shipped crates is searched for ~80 network/TLS/DNS/telemetry crates.",
+    "the dependency half is only as strong as the deny-list; HarperOpen excluded (as the property says); TCP mode skipped if port 4000 is taken", "§4.C10", "E3")
+
 claimed = [C[k] for k in sorted(C)]
 na = [dict(property_id=p["id"], reason="check under construction in this build phase; not claimed until its command exists and passes on the unchanged tree")
       for p in props if p["id"] not in C]
